@@ -149,6 +149,14 @@ func RunRetentionCase(seed int64, workDir string) *HistResult {
 			kind := r.Intn(4) // 0 finished, 1 canceled unstarted, 2 formerly running, 3 formerly waiting
 			st := created.Add(time.Second)
 			en := created.Add(time.Minute)
+			if k%3 == 0 {
+				// a job that waited or ran for a long time and ended three minutes ago: its age is its age all the same, and
+				// the order of the jobs is the order of their creation (seed C12-n: retention period measured from the end)
+				en = now.Add(-3 * time.Minute)
+				if kind == 0 {
+					res.sit("C12", "finished job that ended long after it was created")
+				}
+			}
 			switch kind {
 			case 0:
 				pj.Start, pj.End, pj.Completed = &st, &en, true
